@@ -18,6 +18,7 @@ func init() {
 	rt.Register("C13_par1_truncate", VerifHarness_C13_par1_truncate)
 	rt.Register("C13_par1_corrupt", VerifHarness_C13_par1_corrupt)
 	rt.Register("C19_par1_fields", VerifHarness_C19_par1_fields)
+	rt.Register("C19_par1_long_name", VerifHarness_C19_par1_long_name)
 	rt.Register("C15_par1_names", VerifHarness_C15_par1_names)
 	rt.Register("C18_par1_faults", VerifHarness_C18_par1_faults)
 	rt.Register("C18_par1_create_faults", VerifHarness_C18_par1_create_faults)
@@ -418,6 +419,43 @@ func VerifHarness_C10_reader_many() {
 		d, ok := fs.files[p1Dir+"/"+e.name]
 		rt.Assert(ok && bytesEqual(d, e.data), "the lost file is restored exactly, under its own name")
 	}
+}
+
+// Long names in a conformant index (255 .. 300 UTF-16 units, one of them in an
+// entry that is not saved in the set): read without panic, verified, repaired.
+func VerifHarness_C19_par1_long_name() {
+	useReedSolomonStub()
+	n := []int{255, 256, 257, 300}[rt.Choice("units", 4)]
+	long := make([]byte, n)
+	for i := range long {
+		long[i] = byte('a' + i%26)
+	}
+	a := refEntry{"a", rt.Bytes("a", 2), true}
+	entries := []refEntry{{string(long), []byte{1}, rt.Bool("longSaved")}, a}
+	var saved []refEntry
+	for _, e := range entries {
+		if e.saved {
+			saved = append(saved, e)
+		}
+	}
+	p := make([]byte, 2)
+	for i, e := range saved {
+		for j := range e.data {
+			p[j] ^= gf8mul(gf8pow(byte(i+1), 0), e.data[j])
+		}
+	}
+	fs := newSymFS()
+	fs.put(p1Index, refVolume(entries, 0, nil))
+	fs.put(p1VolPath(1), refVolume(entries, 1, p))
+	for _, e := range entries {
+		fs.put(p1Dir+"/"+e.name, append([]byte(nil), e.data...))
+	}
+	res, err := verify(fs, p1Index, VerifyOptions{})
+	rt.Assert(err == nil && res.FileCounts.UnusableDataFileCount == 0, "a conformant set with a long file name verifies")
+	fs.remove(p1Dir + "/a")
+	_, rerr := repair(fs, p1Index, RepairOptions{})
+	d, ok := fs.files[p1Dir+"/a"]
+	rt.Assert(rerr == nil && ok && bytesEqual(d, a.data), "the lost file is restored exactly, under its own name")
 }
 
 // ---- PAR1 side of C13 / C19 / C15 / C18 ----
